@@ -158,7 +158,22 @@ def outcome(f, *args):
         raise
     except BaseException as e:  # noqa: the point of the check
         tb = traceback.extract_tb(e.__traceback__)
-        return ("other", type(e).__name__, tb[-1].name if tb else "?")
+        return ("other", type(e).__name__, blame(e, tb))
+
+
+def blame(e, tb):
+    """The function named in the signature: the bottom frame of the traceback; for RecursionError the
+    bottom frame is wherever the stack happened to run out, so the function that recurses (the most
+    frequent bardic frame) is named instead, or the bottom bardic frame when nothing recurses there
+    (the recursion is inside CPython's own parser)."""
+    if not tb:
+        return "?"
+    if isinstance(e, RecursionError):
+        ours = [f.name for f in tb if "bardic" in f.filename]
+        if ours:
+            top = max(set(ours), key=ours.count)
+            return top if ours.count(top) > 3 else ours[-1]
+    return tb[-1].name
 
 
 def robs(oc, val_term):
@@ -275,7 +290,7 @@ def read_ascii(path):
     return t
 
 
-def gen_lines(rng, n_random, n_shaped):
+def gen_lines(rng, n_random, n_shaped, extra=()):
     seen, out = set(), []
 
     def add(s):
@@ -289,6 +304,8 @@ def gen_lines(rng, n_random, n_shaped):
         add(rand_line(rng))
     for _ in range(n_shaped):
         add(shaped_line(rng))
+    for s in extra:
+        add(s)
     return out
 
 
@@ -768,13 +785,23 @@ def run(tier: str, seed: int) -> int:
     C.use_repo()
     rng = chk.rng
     quick = tier == "quick"
-    n_rand, n_shaped, n_multi, n_gen_plain, n_gen_blocks, n_mut_per_file = \
-        (250, 450, 120, 260, 200, 3) if quick else (2500, 4500, 1200, 2500, 2000, 30)
+    n_rand, n_shaped, n_harvest, n_multi, n_gen_plain, n_gen_blocks, n_mut_per_file = \
+        (500, 1500, 500, 200, 700, 500, 8) if quick else (3000, 8000, 3000, 1500, 5000, 4000, 60)
     dist = {"line_functions": {}, "line_kinds": {}, "outcomes": {}, "mutations": {}, "constructs_used": {},
             "families": {}}
 
     # ---------------- (a) line-level correspondence ----------------
-    lines = gen_lines(rng, n_rand, n_shaped)
+    harvested = []
+    for path in repo_bard_files():
+        t = read_ascii(path)
+        if t:
+            for l in t.split("\n"):
+                if C.is_ascii(l):
+                    harvested.append(l)
+                    if l.startswith(":: "):
+                        harvested.append(l[3:].strip())          # what the header functions see
+    rng.shuffle(harvested)
+    lines = gen_lines(rng, n_rand, n_shaped, harvested[:n_harvest])
     multi = gen_multi(rng, n_multi)
     lcases = line_cases(lines, multi, chk, dist["line_functions"])
     bad, shown, log = C.run_coq_cases(chk.scratch, HEADER, [t for t, _ in lcases], "lcase", "lcase_bad",
